@@ -869,7 +869,8 @@ class SymbolicI:
                 rec['discharged'] += 1
                 return True
             if r == 'sat':
-                m = self._dyadic_model(ctx) or ctx.solver.model()
+                m0 = ctx.solver.model()
+                m = self._dyadic_model(ctx) or m0
                 rec['failures'].append(Failure(label=label, verdict='sat', values=model_values(ctx, m),
                                                trace=list(ctx.trace)))
             else:
